@@ -152,6 +152,11 @@ def allBounds (c : Cls) (d : Nat) : List (Arg × Bound α) := baseBounds ++ optB
 def firstError (bs : List (Arg × Bound α)) (p : Params α) : Option (Arg × Nat) :=
   bs.findSome? fun (a, b) => let e := errCase b (p.get a); if e = 0 then none else some (a, e)
 
+/-- every argument outside its interval (diagnostics: the TPL classes compute `var` through a `var_factor`
+    that is NaN / 0 for degenerate `len_scale`, `hurst`, which can hide the `var` error behind a later one) -/
+def allErrors (bs : List (Arg × Bound α)) (p : Params α) : List (Arg × Nat) :=
+  bs.filterMap fun (a, b) => let e := errCase b (p.get a); if e = 0 then none else some (a, e)
+
 /-- default parameters of class `c` in dimension `d` (`var = len_scale = 1`, `nugget = 0`) -/
 def defaultParams (c : Cls) (d : Nat) : Params α :=
   let get (a : Arg) : α := ((optDefaults (α := α) c d).find? (fun x => x.1 == a)).elim ((0:Nat):α) (·.2)
@@ -257,6 +262,7 @@ def ops (op : String) (j : Json) : Option (Except String Json) :=
           ("dim", Json.num (JsonNumber.fromNat d)),
           ("warn", Json.bool (!checkDim c d)),
           ("result", errJson (firstError (allBounds c d) p)),
+          ("all_errors", Json.arr ((allErrors (allBounds c d) p).map fun e => errJson (some e)).toArray),
           ("accepts", Json.bool (accepts c d p))])
   | "c02_setdim" => some (do
       let c ← getCls j
